@@ -188,6 +188,6 @@ func specWasmDryReport(ext []string, roots []*Node, i int) string {
 
 // Output of the wasm variant: the same rendering clause as OutputFromMarkdown of the default build.
 //@ func gtree.Output
-//@   modifies Node.children, Node.parent, Node.brnch.value, Node.brnch.path, Node.name, list.List.view, list.Element.backOf, counter.n, bufio.Scanner.pos, bufio.Scanner.failed, markdown.Parser.isSharpRoot, markdown.Parser.spaces, markdown.Parser.sep, out, wfail
+//@   modifies Node.children, Node.parent, Node.brnch.value, Node.brnch.path, Node.name, list.List.view, list.Element.backOf, counter.n, lastConfig, bufio.Scanner.pos, bufio.Scanner.failed, markdown.Parser.isSharpRoot, markdown.Parser.spaces, markdown.Parser.sep, out, wfail
 //@   use lemma lemmaBakedAllIsRenderAll
 //@   ensures render [C17]: exists c *config :: {witness(cfg)} fresh(c) && (c.encode == encodeDefault && !c.dryrun && result == nil ==> wfail == old(wfail) && (exists rs []*Node :: {witness(roots)} allRoots(rs) && out[w] == old(out[w]) ++ specRenderAll(c.lastNodeFormat, c.intermedialNodeFormat, rs, len(rs))))
